@@ -35,44 +35,246 @@ pub fn is_valid_identifier(s: &str) -> bool {
     chars.all(|c| c.is_ascii_alphanumeric() || c == '_')
 }
 
+/// Write a string as a literal. Blots strings have no escape sequences: a literal simply ends
+/// at the next occurrence of its opening quote, so the quote character is chosen so that it
+/// does not occur in the text. Returns `None` when the text contains both quote characters
+/// (no single literal can denote it).
+fn string_literal(s: &str) -> Option<String> {
+    if !s.contains('"') {
+        Some(format!("\"{}\"", s))
+    } else if !s.contains('\'') {
+        Some(format!("'{}'", s))
+    } else {
+        None
+    }
+}
+
+/// Write a string as an expression: a literal when possible, otherwise a parenthesised
+/// concatenation of literals (for text containing both quote characters).
+fn string_to_source(s: &str) -> String {
+    if let Some(literal) = string_literal(s) {
+        return literal;
+    }
+
+    let mut pieces: Vec<String> = Vec::new();
+    let mut current = String::new();
+    for c in s.chars() {
+        let mut candidate = current.clone();
+        candidate.push(c);
+        if string_literal(&candidate).is_none() {
+            pieces.push(string_literal(&current).unwrap_or_default());
+            current = c.to_string();
+        } else {
+            current = candidate;
+        }
+    }
+    pieces.push(string_literal(&current).unwrap_or_default());
+    format!("({})", pieces.join(" + "))
+}
+
 /// Format a record key, adding quotes if necessary
 pub fn format_record_key(key: &str) -> String {
     if is_valid_identifier(key) {
         key.to_string()
+    } else if let Some(literal) = string_literal(key) {
+        literal
     } else {
-        format!("\"{}\"", key.replace('\\', "\\\\").replace('"', "\\\""))
+        // A key containing both quote characters can only be written as a computed key.
+        format!("[{}]", string_to_source(key))
     }
 }
 
+fn number_to_source(n: f64) -> String {
+    if n.fract() == 0.0 && n.abs() < 1e15 {
+        format!("{:.0}", n)
+    } else {
+        n.to_string()
+    }
+}
+
+/// Binding strength of a binary operator as the parser sees it (higher binds tighter).
+fn binary_level(op: &BinaryOp) -> (u8, Assoc) {
+    operator_info(op)
+}
+
+/// Expressions that extend as far to the right as possible (their last sub-expression is not
+/// delimited), so that anything written after them would be swallowed.
+pub fn is_open_ended(expr: &SpannedExpr) -> bool {
+    matches!(
+        expr.node,
+        Expr::Lambda { .. } | Expr::Conditional { .. } | Expr::Assignment { .. } | Expr::Output { .. }
+    )
+}
+
+/// Does the text of `expr` end with an open-ended expression?
+fn ends_open(expr: &SpannedExpr) -> bool {
+    match &expr.node {
+        Expr::BinaryOp { right, .. } => ends_open(right),
+        Expr::UnaryOp { expr, .. } => ends_open(expr),
+        _ => is_open_ended(expr),
+    }
+}
+
+fn is_pipe_operator(op: &BinaryOp) -> bool {
+    matches!(op, BinaryOp::Via | BinaryOp::Into | BinaryOp::Where)
+}
+
+/// Does an operator chain written without parentheses contain `via`, `into` or `where`?
+/// A lambda body cannot contain these operators unparenthesised (the body ends before them),
+/// so such a body has to be wrapped.
+pub fn lambda_body_needs_parens(body: &SpannedExpr) -> bool {
+    match &body.node {
+        Expr::BinaryOp { op, left, right } => {
+            is_pipe_operator(op)
+                || (!needs_parens_in_binop(op, left, true) && lambda_body_needs_parens(left))
+                || (!needs_parens_in_binop(op, right, false) && lambda_body_needs_parens(right))
+        }
+        Expr::UnaryOp { expr, .. } => {
+            !needs_parens_in_prefix(expr) && lambda_body_needs_parens(expr)
+        }
+        _ => false,
+    }
+}
+
+/// Check if a child expression needs parentheses when used as an operand of a binary operation
+pub fn needs_parens_in_binop(
+    parent_op: &BinaryOp,
+    child_expr: &SpannedExpr,
+    is_left: bool,
+) -> bool {
+    match &child_expr.node {
+        Expr::BinaryOp { op: child_op, .. } => {
+            let (parent_prec, parent_assoc) = binary_level(parent_op);
+            let (child_prec, _child_assoc) = binary_level(child_op);
+
+            // Need parentheses if child binds less tightly
+            if child_prec < parent_prec {
+                return true;
+            }
+
+            // Same level: the parser groups left-associative operators to the left and
+            // right-associative ones to the right; the other side needs parentheses to keep
+            // the tree as it is.
+            if child_prec == parent_prec {
+                let natural_side_is_left = matches!(parent_assoc, Assoc::Left);
+                if is_left != natural_side_is_left {
+                    return true;
+                }
+            }
+
+            // A left operand that ends in a lambda, conditional or assignment would swallow
+            // the operator that follows it.
+            is_left && ends_open(child_expr)
+        }
+        // Open-ended expressions are fine as the last thing on the right, never on the left.
+        _ if is_open_ended(child_expr) => is_left,
+        Expr::UnaryOp { .. } => is_left && ends_open(child_expr),
+        _ => false,
+    }
+}
+
+/// Check if an expression needs parentheses as the operand of a prefix operator
+pub fn needs_parens_in_prefix(child_expr: &SpannedExpr) -> bool {
+    matches!(child_expr.node, Expr::BinaryOp { .. }) || is_open_ended(child_expr)
+}
+
+/// Check if an expression needs parentheses before a postfix operator, a call, an index or a
+/// field access
+pub fn needs_parens_in_postfix(child_expr: &SpannedExpr) -> bool {
+    match &child_expr.node {
+        Expr::BinaryOp { .. } | Expr::UnaryOp { .. } | Expr::Spread(_) => true,
+        Expr::Number(n) => n.is_sign_negative() || !n.is_finite(),
+        _ => is_open_ended(child_expr),
+    }
+}
+
+fn parenthesize(text: String, needed: bool) -> String {
+    if needed {
+        format!("({})", text)
+    } else {
+        text
+    }
+}
+
+type Scope = IndexMap<String, SerializableValue>;
+
 pub fn expr_to_source(spanned_expr: &SpannedExpr) -> String {
+    write_expr(spanned_expr, None)
+}
+
+/// Convert an expression to source code with inlined scope values
+pub fn expr_to_source_with_scope(spanned_expr: &SpannedExpr, scope: &Scope) -> String {
+    write_expr(spanned_expr, Some(scope))
+}
+
+/// Text of an operand before a postfix operator / call / index / field access
+fn write_postfix_base(expr: &SpannedExpr, scope: Option<&Scope>) -> String {
+    let text = write_expr(expr, scope);
+    let needed = needs_parens_in_postfix(expr) || inlined_value_needs_parens(expr, scope);
+    parenthesize(text, needed)
+}
+
+/// An identifier that is replaced by a captured negative number reads `-1`, which must not be
+/// followed directly by a postfix operator.
+fn inlined_value_needs_parens(expr: &SpannedExpr, scope: Option<&Scope>) -> bool {
+    if let (Expr::Identifier(name), Some(scope)) = (&expr.node, scope)
+        && let Some(SerializableValue::Number(n)) = scope.get(name)
+    {
+        return n.is_sign_negative() && !n.is_nan();
+    }
+    false
+}
+
+fn write_expr(spanned_expr: &SpannedExpr, scope: Option<&Scope>) -> String {
     match &spanned_expr.node {
         Expr::Number(n) => {
-            if n.fract() == 0.0 && n.abs() < 1e15 {
-                format!("{:.0}", n)
+            if n.is_finite() {
+                number_to_source(*n)
             } else {
-                n.to_string()
+                non_finite_to_source(*n)
             }
         }
-        Expr::String(s) => format!("\"{}\"", s.replace("\\", "\\\\").replace("\"", "\\\"")),
+        Expr::String(s) => string_to_source(s),
         Expr::Bool(b) => b.to_string(),
         Expr::Null => "null".to_string(),
-        Expr::Identifier(name) => name.clone(),
+        Expr::Identifier(name) => {
+            // If the identifier is in the scope, inline its value
+            if let Some(value) = scope.and_then(|scope| scope.get(name)) {
+                serializable_value_to_source(value)
+            } else {
+                name.clone()
+            }
+        }
         Expr::InputReference(field) => format!("#{}", field),
         Expr::BuiltIn(built_in) => built_in.name().to_string(),
         Expr::List(items) => {
-            let items_str: Vec<String> = items.iter().map(|c| expr_to_source(&c.node)).collect();
+            let items_str: Vec<String> =
+                items.iter().map(|c| write_expr(&c.node, scope)).collect();
             format!("[{}]", items_str.join(", "))
         }
         Expr::Record(entries) => {
             let entries_str: Vec<String> = entries
                 .iter()
-                .map(|c| record_entry_to_source(&c.node))
+                .map(|c| record_entry_to_source(&c.node, scope))
                 .collect();
             format!("{{{}}}", entries_str.join(", "))
         }
         Expr::Lambda { args, body } => {
             let args_str: Vec<String> = args.iter().map(lambda_arg_to_source).collect();
-            format!("({}) => {}", args_str.join(", "), expr_to_source(body))
+            // Lambda bodies should not inline their own parameters
+            // Filter out parameter names from the scope before processing the body
+            let filtered_scope = scope.map(|scope| {
+                let mut filtered_scope = scope.clone();
+                for arg in args {
+                    filtered_scope.shift_remove(arg.get_name());
+                }
+                filtered_scope
+            });
+            let body_str = parenthesize(
+                write_expr(body, filtered_scope.as_ref()),
+                lambda_body_needs_parens(body),
+            );
+            format!("({}) => {}", args_str.join(", "), body_str)
         }
         Expr::Conditional {
             condition,
@@ -80,14 +282,16 @@ pub fn expr_to_source(spanned_expr: &SpannedExpr) -> String {
             else_expr,
         } => format!(
             "if {} then {} else {}",
-            expr_to_source(condition),
-            expr_to_source(then_expr),
-            expr_to_source(else_expr)
+            parenthesize(write_expr(condition, scope), is_open_ended(condition)),
+            parenthesize(write_expr(then_expr, scope), is_open_ended(then_expr)),
+            write_expr(else_expr, scope)
         ),
         Expr::DoBlock {
             statements,
             return_expr,
         } => {
+            // Names assigned inside the block shadow captured values from there on
+            let mut block_scope = scope.cloned();
             let mut result = "do {".to_string();
             for stmt in statements {
                 // Leading comments
@@ -95,7 +299,15 @@ pub fn expr_to_source(spanned_expr: &SpannedExpr) -> String {
                     result.push_str(&format!("\n  {}", comment));
                 }
                 // Expression
-                result.push_str(&format!("\n  {}", expr_to_source(&stmt.node)));
+                result.push_str(&format!(
+                    "\n  {}",
+                    write_expr(&stmt.node, block_scope.as_ref())
+                ));
+                if let (Expr::Assignment { ident, .. }, Some(block_scope)) =
+                    (&stmt.node.node, block_scope.as_mut())
+                {
+                    block_scope.shift_remove(ident);
+                }
                 // Trailing comment
                 if let Some(trailing) = &stmt.trailing {
                     result.push_str(&format!("  {}", trailing));
@@ -107,48 +319,58 @@ pub fn expr_to_source(spanned_expr: &SpannedExpr) -> String {
             }
             result.push_str(&format!(
                 "\n  return {}\n}}",
-                expr_to_source(&return_expr.node)
+                write_expr(&return_expr.node, block_scope.as_ref())
             ));
             result
         }
-        Expr::Assignment { ident, value } => format!("{} = {}", ident, expr_to_source(value)),
-        Expr::Output { expr } => format!("output {}", expr_to_source(expr)),
+        Expr::Assignment { ident, value } => format!("{} = {}", ident, write_expr(value, scope)),
+        Expr::Output { expr } => format!("output {}", write_expr(expr, scope)),
         Expr::Call { func, args } => {
-            let args_str: Vec<String> = args.iter().map(expr_to_source).collect();
-            let func_str = match &func.node {
-                // Wrap lambdas in parentheses when used in call position
-                Expr::Lambda { .. } => format!("({})", expr_to_source(func)),
-                _ => expr_to_source(func),
-            };
-            format!("{}({})", func_str, args_str.join(", "))
+            let args_str: Vec<String> = args.iter().map(|e| write_expr(e, scope)).collect();
+            format!(
+                "{}({})",
+                write_postfix_base(func, scope),
+                args_str.join(", ")
+            )
         }
         Expr::Access { expr, index } => {
-            format!("{}[{}]", expr_to_source(expr), expr_to_source(index))
+            format!(
+                "{}[{}]",
+                write_postfix_base(expr, scope),
+                write_expr(index, scope)
+            )
         }
-        Expr::DotAccess { expr, field } => format!("{}.{}", expr_to_source(expr), field),
+        Expr::DotAccess { expr, field } => {
+            format!("{}.{}", write_postfix_base(expr, scope), field)
+        }
         Expr::BinaryOp { op, left, right } => {
             let op_str = binary_op_to_source(op);
-            let left_str = if needs_parens_in_binop(op, left, true) {
-                format!("({})", expr_to_source(left))
-            } else {
-                expr_to_source(left)
-            };
-            let right_str = if needs_parens_in_binop(op, right, false) {
-                format!("({})", expr_to_source(right))
-            } else {
-                expr_to_source(right)
-            };
+            let left_str = parenthesize(
+                write_expr(left, scope),
+                needs_parens_in_binop(op, left, true),
+            );
+            let right_str = parenthesize(
+                write_expr(right, scope),
+                needs_parens_in_binop(op, right, false),
+            );
             format!("{} {} {}", left_str, op_str, right_str)
         }
         Expr::UnaryOp { op, expr } => {
             let op_str = unary_op_to_source(op);
-            format!("{}{}", op_str, expr_to_source(expr))
+            format!(
+                "{}{}",
+                op_str,
+                parenthesize(write_expr(expr, scope), needs_parens_in_prefix(expr))
+            )
         }
         Expr::PostfixOp { op, expr } => {
             let op_str = postfix_op_to_source(op);
-            format!("{}{}", expr_to_source(expr), op_str)
+            format!("{}{}", write_postfix_base(expr, scope), op_str)
         }
-        Expr::Spread(expr) => format!("...{}", expr_to_source(expr)),
+        Expr::Spread(expr) => format!(
+            "...{}",
+            parenthesize(write_expr(expr, scope), is_open_ended(expr))
+        ),
     }
 }
 
@@ -160,22 +382,30 @@ fn lambda_arg_to_source(arg: &LambdaArg) -> String {
     }
 }
 
-fn record_entry_to_source(entry: &RecordEntry) -> String {
+fn record_entry_to_source(entry: &RecordEntry, scope: Option<&Scope>) -> String {
     match &entry.key {
         RecordKey::Static(key) => format!(
             "{}: {}",
             format_record_key(key),
-            expr_to_source(&entry.value)
+            write_expr(&entry.value, scope)
         ),
         RecordKey::Dynamic(key_expr) => {
             format!(
                 "[{}]: {}",
-                expr_to_source(key_expr),
-                expr_to_source(&entry.value)
+                write_expr(key_expr, scope),
+                write_expr(&entry.value, scope)
             )
         }
-        RecordKey::Shorthand(name) => name.clone(),
-        RecordKey::Spread(expr) => expr_to_source(expr),
+        RecordKey::Shorthand(name) => {
+            // For shorthand, check if the value is in scope
+            // Note: shorthand keys are always valid identifiers (they come from variable names)
+            if let Some(value) = scope.and_then(|scope| scope.get(name)) {
+                format!("{}: {}", name, serializable_value_to_source(value))
+            } else {
+                name.clone()
+            }
+        }
+        RecordKey::Spread(expr) => write_expr(expr, scope),
     }
 }
 
@@ -210,46 +440,6 @@ fn binary_op_to_source(op: &BinaryOp) -> &'static str {
     }
 }
 
-/// Check if a child expression needs parentheses when used in a binary operation
-pub fn needs_parens_in_binop(
-    parent_op: &BinaryOp,
-    child_expr: &SpannedExpr,
-    is_left: bool,
-) -> bool {
-    match &child_expr.node {
-        Expr::BinaryOp { op: child_op, .. } => {
-            let (parent_prec, parent_assoc) = operator_info(parent_op);
-            let (child_prec, _child_assoc) = operator_info(child_op);
-
-            // Need parentheses if child has lower precedence
-            if child_prec < parent_prec {
-                return true;
-            }
-
-            // For same precedence, need parentheses on right side for:
-            // - Right-associative operators (e.g., power)
-            // - Non-associative operators (subtraction, division)
-            if child_prec == parent_prec && !is_left {
-                match parent_assoc {
-                    Assoc::Right => return true,
-                    Assoc::Left => {
-                        // For left-associative operators, right side needs parens for non-associative ones
-                        if matches!(
-                            parent_op,
-                            BinaryOp::Subtract | BinaryOp::Divide | BinaryOp::Modulo
-                        ) {
-                            return true;
-                        }
-                    }
-                }
-            }
-
-            false
-        }
-        _ => false,
-    }
-}
-
 fn unary_op_to_source(op: &UnaryOp) -> &'static str {
     match op {
         UnaryOp::Negate => "-",
@@ -264,191 +454,14 @@ fn postfix_op_to_source(op: &PostfixOp) -> &'static str {
     }
 }
 
-/// Convert an expression to source code with inlined scope values
-pub fn expr_to_source_with_scope(
-    spanned_expr: &SpannedExpr,
-    scope: &IndexMap<String, SerializableValue>,
-) -> String {
-    match &spanned_expr.node {
-        Expr::Identifier(name) => {
-            // If the identifier is in the scope, inline its value
-            if let Some(value) = scope.get(name) {
-                serializable_value_to_source(value)
-            } else {
-                name.clone()
-            }
-        }
-        Expr::InputReference(field) => format!("#{}", field),
-        // For all other expression types, recursively process with scope
-        Expr::Number(n) => {
-            if n.fract() == 0.0 && n.abs() < 1e15 {
-                format!("{:.0}", n)
-            } else {
-                n.to_string()
-            }
-        }
-        Expr::String(s) => format!("\"{}\"", s.replace("\\", "\\\\").replace("\"", "\\\"")),
-        Expr::Bool(b) => b.to_string(),
-        Expr::Null => "null".to_string(),
-        Expr::BuiltIn(built_in) => built_in.name().to_string(),
-        Expr::List(items) => {
-            let items_str: Vec<String> = items
-                .iter()
-                .map(|c| expr_to_source_with_scope(&c.node, scope))
-                .collect();
-            format!("[{}]", items_str.join(", "))
-        }
-        Expr::Record(entries) => {
-            let entries_str: Vec<String> = entries
-                .iter()
-                .map(|c| record_entry_to_source_with_scope(&c.node, scope))
-                .collect();
-            format!("{{{}}}", entries_str.join(", "))
-        }
-        Expr::Lambda { args, body } => {
-            let args_str: Vec<String> = args.iter().map(lambda_arg_to_source).collect();
-            // Lambda bodies should not inline their own parameters
-            // Filter out parameter names from the scope before processing the body
-            let mut filtered_scope = scope.clone();
-            for arg in args {
-                filtered_scope.shift_remove(arg.get_name());
-            }
-            format!(
-                "({}) => {}",
-                args_str.join(", "),
-                expr_to_source_with_scope(body, &filtered_scope)
-            )
-        }
-        Expr::Conditional {
-            condition,
-            then_expr,
-            else_expr,
-        } => format!(
-            "if {} then {} else {}",
-            expr_to_source_with_scope(condition, scope),
-            expr_to_source_with_scope(then_expr, scope),
-            expr_to_source_with_scope(else_expr, scope)
-        ),
-        Expr::DoBlock {
-            statements,
-            return_expr,
-        } => {
-            let mut result = "do {".to_string();
-            for stmt in statements {
-                // Leading comments
-                for comment in &stmt.leading {
-                    result.push_str(&format!("\n  {}", comment));
-                }
-                // Expression
-                result.push_str(&format!(
-                    "\n  {}",
-                    expr_to_source_with_scope(&stmt.node, scope)
-                ));
-                // Trailing comment
-                if let Some(trailing) = &stmt.trailing {
-                    result.push_str(&format!("  {}", trailing));
-                }
-            }
-            // Return expression with leading comments
-            for comment in &return_expr.leading {
-                result.push_str(&format!("\n  {}", comment));
-            }
-            result.push_str(&format!(
-                "\n  return {}",
-                expr_to_source_with_scope(&return_expr.node, scope)
-            ));
-            result.push_str("\n}");
-            result
-        }
-        Expr::BinaryOp { op, left, right } => {
-            let op_str = binary_op_to_source(op);
-            let left_str = if needs_parens_in_binop(op, left, true) {
-                format!("({})", expr_to_source_with_scope(left, scope))
-            } else {
-                expr_to_source_with_scope(left, scope)
-            };
-            let right_str = if needs_parens_in_binop(op, right, false) {
-                format!("({})", expr_to_source_with_scope(right, scope))
-            } else {
-                expr_to_source_with_scope(right, scope)
-            };
-            format!("{} {} {}", left_str, op_str, right_str)
-        }
-        Expr::UnaryOp { op, expr } => {
-            let op_str = match op {
-                UnaryOp::Negate => "-",
-                UnaryOp::Not => "!",
-                UnaryOp::Invert => "~",
-            };
-            format!("{}{}", op_str, expr_to_source_with_scope(expr, scope))
-        }
-        Expr::PostfixOp { op, expr } => {
-            let op_str = postfix_op_to_source(op);
-            format!("{}{}", expr_to_source_with_scope(expr, scope), op_str)
-        }
-        Expr::Spread(expr) => format!("...{}", expr_to_source_with_scope(expr, scope)),
-        Expr::Assignment { ident, value } => {
-            format!("{} = {}", ident, expr_to_source_with_scope(value, scope))
-        }
-        Expr::Output { expr } => {
-            format!("output {}", expr_to_source_with_scope(expr, scope))
-        }
-        Expr::Call { func, args } => {
-            let args_str: Vec<String> = args
-                .iter()
-                .map(|e| expr_to_source_with_scope(e, scope))
-                .collect();
-            let func_str = match &func.node {
-                // Wrap lambdas in parentheses when used in call position
-                Expr::Lambda { .. } => {
-                    format!("({})", expr_to_source_with_scope(func, scope))
-                }
-                _ => expr_to_source_with_scope(func, scope),
-            };
-            format!("{}({})", func_str, args_str.join(", "))
-        }
-        Expr::Access { expr, index } => {
-            format!(
-                "{}[{}]",
-                expr_to_source_with_scope(expr, scope),
-                expr_to_source_with_scope(index, scope)
-            )
-        }
-        Expr::DotAccess { expr, field } => {
-            format!("{}.{}", expr_to_source_with_scope(expr, scope), field)
-        }
-    }
-}
-
-fn record_entry_to_source_with_scope(
-    entry: &RecordEntry,
-    scope: &IndexMap<String, SerializableValue>,
-) -> String {
-    match &entry.key {
-        RecordKey::Static(key) => {
-            format!(
-                "{}: {}",
-                format_record_key(key),
-                expr_to_source_with_scope(&entry.value, scope)
-            )
-        }
-        RecordKey::Dynamic(key_expr) => {
-            format!(
-                "[{}]: {}",
-                expr_to_source_with_scope(key_expr, scope),
-                expr_to_source_with_scope(&entry.value, scope)
-            )
-        }
-        RecordKey::Shorthand(name) => {
-            // For shorthand, check if the value is in scope
-            // Note: shorthand keys are always valid identifiers (they come from variable names)
-            if let Some(value) = scope.get(name) {
-                format!("{}: {}", name, serializable_value_to_source(value))
-            } else {
-                name.clone()
-            }
-        }
-        RecordKey::Spread(expr) => expr_to_source_with_scope(expr, scope),
+/// NaN and the infinities have no literal; they are written as expressions that evaluate to them.
+fn non_finite_to_source(n: f64) -> String {
+    if n.is_nan() {
+        "(0 / 0)".to_string()
+    } else if n.is_sign_positive() {
+        "inf".to_string()
+    } else {
+        "(-inf)".to_string()
     }
 }
 
@@ -456,17 +469,15 @@ fn record_entry_to_source_with_scope(
 fn serializable_value_to_source(value: &SerializableValue) -> String {
     match value {
         SerializableValue::Number(n) => {
-            if n.fract() == 0.0 && n.abs() < 1e15 {
-                format!("{:.0}", n)
+            if n.is_finite() {
+                number_to_source(*n)
             } else {
-                n.to_string()
+                non_finite_to_source(*n)
             }
         }
         SerializableValue::Bool(b) => b.to_string(),
         SerializableValue::Null => "null".to_string(),
-        SerializableValue::String(s) => {
-            format!("\"{}\"", s.replace("\\", "\\\\").replace("\"", "\\\""))
-        }
+        SerializableValue::String(s) => string_to_source(s),
         SerializableValue::List(items) => {
             let items_str: Vec<String> = items.iter().map(serializable_value_to_source).collect();
             format!("[{}]", items_str.join(", "))
